@@ -243,9 +243,17 @@ impl<M: Emu> RefMachine<M> {
             if out.terminator || n >= max_instr {
                 break;
             }
-            // a block started in ROM never extends past its 16 KiB region
+            // a block started in ROM never extends past its 16 KiB region, and an
+            // instruction that reaches into the next region is a block of its own
             if start < 0x8000 && (self.cpu.pc ^ start) & 0xc000 != 0 {
                 break;
+            }
+            let pc = self.cpu.pc;
+            if pc < 0x8000 && (pc & 0x3fff) >= 0x3ffe {
+                let op = self.t.read(pc);
+                if sm83::length(op) as u16 > 0x4000 - (pc & 0x3fff) {
+                    break;
+                }
             }
         }
         self.carried = 0;
